@@ -55,6 +55,8 @@ class QProp(Prop):
         self._index = {id(c): i for i, c in enumerate(cases)}
 
     def spec_verdict(self, case, impl, spec):
+        if isinstance(case.expect, tuple) and case.expect[0] == "ABS":
+            return None if impl == case.expect[1] else f"`{case.text}` answered {impl[:90]}, expected {case.expect[1][:90]}"
         if case.tag == "refsweep-pair":
             from . import refsweep as R
             return R.verdict(impl, case.expect[1])
@@ -273,7 +275,10 @@ class C03(QProp):
             x = Q.small_value(rng)
             e = Q.Cast(Q.Qty(x, u1), u2) if i % 3 else Q.Cast(G.Paren(Q.Cast(Q.Qty(x, u1), u2)), u1)
             items.append((e, [], "cancelling-ratio"))
-        return q_cases(items)
+        # 10^(prefix·power) for every product up to 200: `1 km^13 to m^13` is 10^39 (10^19 < 2^64 <
+        # 10^20, 10^38 < 2^128 < 10^39)
+        from . import extragen as X
+        return q_cases(items) + X.prefix_power_sweep(rng, tier)
 
 
 class C04(QProp):
